@@ -637,7 +637,15 @@ func (this *BWT) inverseBiPSIv2Task(dst []byte, buckets []int, fastBits []uint16
 			}
 
 			dst[i-1] = byte(s >> 8)
-			dst[i] = byte(s)
+
+			if i < end {
+				// dst[end] is not part of this chunk: it is the first byte of the
+				// next chunk (which may be processed concurrently by another
+				// task and writes it itself) or the last byte of the block
+				// (set by the caller)
+				dst[i] = byte(s)
+			}
+
 			p = int(data[p])
 		}
 
